@@ -47,3 +47,75 @@ package fallback
 //@   let x := asref(result, *executor)
 //@   ensures [C01.toexecutor.fresh_self_referential+C10.toexecutor] typeis(result, *executor) && fresh(x) && x.fallback == fb && x.BaseExecutor != nil && fresh(x.BaseExecutor) && typeis(x.Executor, *executor) && asref(x.Executor, *executor) == x && x.BaseExecutor.BaseFailurePolicy == fb.BaseFailurePolicy
 //@   modifies nothing
+
+// Builders: the constant-result / constant-error fallbacks are functions returning exactly that; BuilderWithFunc stores the
+// function it is given.
+//@ func BuilderWithResult$1
+//@   ensures [C10.builder.with_result] result_0 == result && result_1 == nil
+//@   modifies nothing
+//@ func BuilderWithError$1
+//@   ensures [C10.builder.with_error] result_1 == err
+//@   modifies nothing
+//@ func BuilderWithFunc
+//@   builder
+//@   let c := asref(result, *config)
+//@   ensures [C10.builder.with_func] typeis(result, *config) && fresh(c) && c.fn == fallbackFunc && c.onFallbackExecuted == nil && c.BaseFailurePolicy != nil && fresh(c.BaseFailurePolicy) && len(c.failureConditions) == 0 && !c.errorsChecked
+//@   modifies nothing
+// (the parameter is called 'result': the returned builder is result_0)
+//@ func BuilderWithResult
+//@   builder
+//@   let c := asref(result_0, *config)
+//@   ensures [C10.builder.with_result_closure] typeis(result_0, *config) && clofn(c.fn) == fnid("BuilderWithResult$1")
+//@   modifies nothing
+//@ func BuilderWithError
+//@   builder
+//@   let c := asref(result, *config)
+//@   ensures [C10.builder.with_error_closure] typeis(result, *config) && clofn(c.fn) == fnid("BuilderWithError$1")
+//@   modifies nothing
+//@ func (*config).OnFallbackExecuted
+//@   builder
+//@   requires c != nil
+//@   ensures [C16.fallback.listener_registered] c.onFallbackExecuted == listener && c.fn == old(c.fn) && result == asiface(c)
+//@   modifies c.onFallbackExecuted
+
+// Builder wrappers: each delegates exactly once to the shared registration function of the same name on its own base policy
+// and returns the builder itself.
+//@ func (*config).HandleErrors
+//@   builder
+//@   requires c != nil && c.BaseFailurePolicy != nil
+//@   oldlet nd := 0
+//@   oldlet dr := nil
+//@   oldlet dn := -1
+//@   oncall (*BaseFailurePolicy).HandleErrors: nd := nd + 1; dr := callarg_0; dn := len(callarg_1)
+//@   ensures [C12.fallback.handleerrors_delegates+C10.builder.handleerrors] nd == 1 && dr == c.BaseFailurePolicy && result_0 == asiface(c) && dn == len(errs)
+//@   havoc
+//@   modifies *
+//@ func (*config).HandleErrorTypes
+//@   builder
+//@   requires c != nil && c.BaseFailurePolicy != nil
+//@   oldlet nd := 0
+//@   oldlet dr := nil
+//@   oldlet dn := -1
+//@   oncall (*BaseFailurePolicy).HandleErrorTypes: nd := nd + 1; dr := callarg_0; dn := len(callarg_1)
+//@   ensures [C12.fallback.handleerrortypes_delegates+C10.builder.handleerrortypes] nd == 1 && dr == c.BaseFailurePolicy && result_0 == asiface(c) && dn == len(errs)
+//@   havoc
+//@   modifies *
+//@ func (*config).HandleResult
+//@   builder
+//@   requires c != nil && c.BaseFailurePolicy != nil
+//@   oldlet nd := 0
+//@   oldlet dr := nil
+//@   oncall (*BaseFailurePolicy).HandleResult: nd := nd + 1; dr := callarg_0
+//@   ensures [C12.fallback.handleresult_delegates+C10.builder.handleresult] nd == 1 && dr == c.BaseFailurePolicy && result_0 == asiface(c)
+//@   havoc
+//@   modifies *
+//@ func (*config).HandleIf
+//@   builder
+//@   requires c != nil && c.BaseFailurePolicy != nil
+//@   oldlet nd := 0
+//@   oldlet dr := nil
+//@   oldlet da := nil
+//@   oncall (*BaseFailurePolicy).HandleIf: nd := nd + 1; dr := callarg_0; da := callarg_1
+//@   ensures [C12.fallback.handleif_delegates+C10.builder.handleif] nd == 1 && dr == c.BaseFailurePolicy && result_0 == asiface(c) && da == predicate
+//@   havoc
+//@   modifies *
